@@ -1,6 +1,7 @@
 import NomtModel.Store.BitOpsReconstruct
 import NomtModel.Store.BitOpsOrder
 import NomtModel.Store.BitOpsBranchRt
+import NomtModel.Store.BitOpsCallSites
 /-!
 # C16 (topic: bit operations of the B-tree) — `nomt/src/beatree/ops/bit_ops.rs`
 
@@ -257,5 +258,108 @@ example : getKey (Store.pageNats sampleBranchBits) 1 =
     some (Store.keyBytes (Store.BItem.key ⟨0xAC * 2 ^ 248, 6, 12⟩)) :=
   T16_reconstruct_rt sampleBranchBits (by decide +kernel) 1 ⟨0xAC * 2 ^ 248, 6, 12⟩ rfl
 example : Store.keyBytes (0xAC * 2 ^ 248) = 0xAC :: List.replicate 31 0 := by decide +kernel
+
+/-! ## the `bitwise_memcpy` call sites of `BranchNodeBuilder::push_chunk`
+
+The mirror of the builder (`Store/BitOpsBuilder.lean`: `new`, `push`, `push_chunk` with the fast path and
+`copy_and_shift_separators`) is run line by line against the real builder (`vharness bitops-node`).  Theorems: every
+source produced by `raw_separators` is inside the contract of `bitwise_memcpy`, and each of the three call-site shapes
+copies exactly the intended bits (the properties F13 / F14 violated). -/
+
+/-- `raw_separators(from, to)` always yields `(bytes, bit_start, bit_len)` with `bit_start ≤ 7` and exactly the 8-byte
+chunks that hold the bits — the source side of the contract of `bitwise_memcpy`, for any page. -/
+theorem T16_raw_separators_in_contract (pg : List Nat) (frm to : Nat) (bytes : List Nat) (bitStart bitLen : Nat)
+    (h : rawSeparators pg frm to = some (bytes, bitStart, bitLen)) :
+    bitStart ≤ 7 ∧ (bitLen = 0 ∨ bytes.length / 8 = (bitStart + bitLen + 63) / 64) :=
+  rawSeparators_guard pg frm to bytes bitStart bitLen h
+
+/-- fast path of `push_chunk` (base and new node have the same prefix length; the cells copied before make the new
+range as long as the base range): one `bitwise_memcpy`, inside its contract; the new node's separator range receives
+the base range bit for bit and **no other bit of the page changes**. -/
+theorem T16_push_chunk_fast_path (pg base : List Nat) (index nItems frm to : Nat)
+    (sStart sLen sBitStart sBitLen bStart bLen bBitStart bBitLen : Nat)
+    (pgB : Bytes pg) (baseB : Bytes base)
+    (hs : rawSeparatorsData pg index (index + nItems) = some (sStart, sLen, sBitStart, sBitLen))
+    (hb : rawSeparatorsData base frm to = some (bStart, bLen, bBitStart, bBitLen))
+    (hlen : sBitLen = bBitLen) (hr1 : sStart + sLen ≤ pg.length) (hr2 : bStart + bLen ≤ base.length) :
+    ∃ pg', ((rawSeparatorsData pg index (index + nItems)).bind fun (sStart, sLen, sBitStart, _) =>
+        (sliceOf pg sStart (sStart + sLen)).bind fun d =>
+        (rawSeparators base frm to).bind fun (bBytes, bBitStart, bBitLen) =>
+        (bitwiseMemcpy d sBitStart bBytes bBitStart bBitLen).map fun out => writeAt pg sStart out) = some pg' ∧
+      pg'.length = pg.length ∧ Bytes pg' ∧
+      (∀ t, t < bBitLen → bitOf pg' (8 * sStart + sBitStart + t) = bitOf base (8 * bStart + bBitStart + t)) ∧
+      (∀ p, (p < 8 * sStart + sBitStart ∨ 8 * sStart + sBitStart + sBitLen ≤ p) → bitOf pg' p = bitOf pg p) :=
+  fastPath_spec pg base index nItems frm to sStart sLen sBitStart sBitLen bStart bLen bBitStart bBitLen pgB baseB hs hb hlen hr1 hr2
+
+/-- one iteration of `copy_and_shift_separators` when the new prefix is LONGER by `diff` (the F13 site, as repaired:
+the source length is recomputed after skipping): no panic, the new separator receives the base separator without its
+first `diff` bits, nothing else changes.  `hr1` / `hr2`: the two slices lie inside the pages. -/
+theorem T16_copy_shift_grow (pg base : List Nat) (index baseIndex diff : Nat)
+    (sStart sLen sBitStart sBitLen bStart bLen bBitStart bBitLen : Nat)
+    (pgB : Bytes pg) (baseB : Bytes base)
+    (hs : rawSeparatorsData pg index (index + 1) = some (sStart, sLen, sBitStart, sBitLen))
+    (hb : rawSeparatorsData base baseIndex (baseIndex + 1) = some (bStart, bLen, bBitStart, bBitLen))
+    (hlen : sBitLen = bBitLen - diff)
+    (hr1 : sStart + sLen ≤ pg.length)
+    (hr2 : bStart + (bBitStart + diff) / 8 +
+      (if sBitLen = 0 then 0 else (((bBitStart + diff) % 8 + sBitLen + 7) / 8 + 7) / 8 * 8) ≤ base.length) :
+    ∃ pg', copyShiftOne pg base index baseIndex none 0 diff = some pg' ∧ pg'.length = pg.length ∧ Bytes pg' ∧
+      (∀ t, t < sBitLen → bitOf pg' (8 * sStart + sBitStart + t) = bitOf base (8 * bStart + bBitStart + diff + t)) ∧
+      (∀ p, (p < 8 * sStart + sBitStart ∨ 8 * sStart + sBitStart + sBitLen ≤ p) → bitOf pg' p = bitOf pg p) :=
+  copyShiftOne_grow pg base index baseIndex diff sStart sLen sBitStart sBitLen bStart bLen bBitStart bBitLen pgB baseB hs hb hlen hr1 hr2
+
+/-- one iteration of `copy_and_shift_separators` when the new prefix is SHORTER by `diff` (the F14 site, as repaired:
+the carried-prefix source is sized from its starting bit): no panic, the new separator receives the last `diff` bits of
+the base prefix followed by the whole base separator, nothing else changes. -/
+theorem T16_copy_shift_extend (pg base : List Nat) (index baseIndex diff : Nat)
+    (sStart sLen sBitStart sBitLen bStart bLen bBitStart bBitLen pStart pBitStart : Nat)
+    (pgB : Bytes pg) (baseB : Bytes base)
+    (hs : rawSeparatorsData pg index (index + 1) = some (sStart, sLen, sBitStart, sBitLen))
+    (hb : rawSeparatorsData base baseIndex (baseIndex + 1) = some (bStart, bLen, bBitStart, bBitLen))
+    (hlen : sBitLen = bBitLen + diff) (hdiff : 0 < diff) (hp7 : pBitStart ≤ 7)
+    (hr1 : sStart + sLen ≤ pg.length)
+    (hr2 : pStart + ((pBitStart + diff + 7) / 8 + 7) / 8 * 8 ≤ base.length)
+    (hr3 : sStart + (sBitStart + diff) / 8 + sLen ≤ pg.length)
+    (hr4 : bStart + bLen ≤ base.length) :
+    ∃ pg', copyShiftOne pg base index baseIndex
+        (some (pStart, pStart + ((pBitStart + diff + 7) / 8 + 7) / 8 * 8, pBitStart)) 1 diff = some pg' ∧
+      pg'.length = pg.length ∧ Bytes pg' ∧
+      (∀ t, t < diff → bitOf pg' (8 * sStart + sBitStart + t) = bitOf base (8 * pStart + pBitStart + t)) ∧
+      (∀ t, t < bBitLen → bitOf pg' (8 * sStart + sBitStart + diff + t) = bitOf base (8 * bStart + bBitStart + t)) ∧
+      (∀ p, (p < 8 * sStart + sBitStart ∨ 8 * sStart + sBitStart + sBitLen ≤ p) → bitOf pg' p = bitOf pg p) :=
+  copyShiftOne_extend pg base index baseIndex diff sStart sLen sBitStart sBitLen bStart bLen bBitStart bBitLen pStart pBitStart
+    pgB baseB hs hb hlen hdiff hp7 hr1 hr2 hr3 hr4
+
+-- non-vacuity on small pages (the theorems do not fix the page size): a base node with prefix length 4 and two stored
+-- separators of 3 and 6 bits, and new nodes with prefix length 6 (grow by 2), 2 (shrink by 2) and 4 (fast path)
+def exBase : List Nat := [0, 0, 0, 0, 2, 0, 2, 0, 4, 0, 3, 0, 9, 0] ++ List.replicate 50 0xA5
+def exGrow : List Nat := [0, 0, 0, 0, 2, 0, 2, 0, 6, 0, 1, 0, 5, 0] ++ List.replicate 50 0x3C
+def exShrink : List Nat := [0, 0, 0, 0, 2, 0, 2, 0, 2, 0, 5, 0, 13, 0] ++ List.replicate 50 0x3C
+def exSame : List Nat := [0, 0, 0, 0, 2, 0, 2, 0, 4, 0, 3, 0, 9, 0] ++ List.replicate 50 0x3C
+
+example : ∃ pg', copyShiftOne exGrow exBase 1 1 none 0 2 = some pg' ∧
+    bitOf pg' (8 * 14 + 7) = bitOf exBase (8 * 14 + 7 + 2) := by
+  obtain ⟨pg', h1, _, _, h4, _⟩ := T16_copy_shift_grow exGrow exBase 1 1 2 14 8 7 4 14 8 7 6
+    (by decide) (by decide) (by decide) (by decide) (by decide) (by decide) (by decide)
+  exact ⟨pg', h1, h4 0 (by decide)⟩
+
+example : ∃ pg', copyShiftOne exShrink exBase 1 1 (some (14, 14 + 8, 2)) 1 2 = some pg' ∧
+    bitOf pg' (8 * 14 + 7) = bitOf exBase (8 * 14 + 2) ∧ bitOf pg' (8 * 14 + 7 + 2) = bitOf exBase (8 * 14 + 7) := by
+  obtain ⟨pg', h1, _, _, h4, h5, _⟩ := T16_copy_shift_extend exShrink exBase 1 1 2 14 8 7 8 14 8 7 6 14 2
+    (by decide) (by decide) (by decide) (by decide) (by decide) (by decide) (by decide) (by decide) (by decide)
+    (by decide) (by decide)
+  exact ⟨pg', h1, h4 0 (by decide), h5 0 (by decide)⟩
+
+example : ∃ pg', pg'.length = exSame.length ∧ bitOf pg' (8 * 14 + 4 + 8) = bitOf exBase (8 * 14 + 4 + 8) ∧
+    bitOf pg' (8 * 14 + 4 + 9) = bitOf exSame (8 * 14 + 4 + 9) := by
+  obtain ⟨pg', _, h2, _, h4, h5⟩ := T16_push_chunk_fast_path exSame exBase 0 2 0 2 14 8 4 9 14 8 4 9
+    (by decide) (by decide) (by decide) (by decide) (by decide) (by decide) (by decide)
+  exact ⟨pg', h2, h4 8 (by decide), h5 _ (by right; decide)⟩
+
+example : rawSeparators exBase 1 2 = some (List.replicate 8 0xA5, 7, 6) := by decide
+
+/-- the unrepaired F14 sizing (`⌈diff/8⌉` rounded up to 8, ignoring the start bit) leaves the contract as soon as
+`start bit + diff` crosses a 64-bit boundary: 62 carried bits starting at bit 3 need 2 chunks, the old formula gave 1 -/
+example : ¬ MemcpyGuard 16 5 (((62 + 7) / 8 + 7) / 8 * 8) 3 62 ∧ MemcpyGuard 16 5 (((3 + 62 + 7) / 8 + 7) / 8 * 8) 3 62 := by decide
 
 end Nomt.C16
